@@ -71,6 +71,23 @@ def run_kernels(ks, gen_report, seed, n_lattice, n_real, driver, custom_gen=None
             st['untranslated'] = True
             continue
         f = lbg.resolve_real(k['target'], k.get('ctor', False))
+        if k.get('self_from'):
+            import importlib
+            sf = k['self_from']
+            modname = k['target'].split(':')[0]
+            cls_ = getattr(importlib.import_module('ladybug_geometry.' + modname), sf['cls'])
+            pn = [p[0] for p in k['params']]
+            used = [pn.index(v) for v in sf['slots'].values()]
+
+            def mk(g_, cls_=cls_, used=used):
+                def call(*a_):
+                    recv = cls_(*[a_[i] for i in used])
+                    rest = [x for i, x in enumerate(a_) if i not in used]
+                    return g_(recv, *rest)
+                return call
+            f = mk(f)
+        if k.get('ret_self'):
+            f = (lambda g_: (lambda self_, *a_: (g_(self_, *a_), self_)))(f)
         g = lbg.Gen(seed, 'kcorr/' + k['name'])
         for stream, n in (('lattice', n_lattice), ('real', n_real)):
             for i in range(n):
